@@ -267,7 +267,7 @@ pub fn assemble(ctx: &mut Ctx, c: &Value) -> (Vec<u8>, bool) {
     if g("sid") == "bad" { sid[0] ^= 0x80; }
     if g("sid") == "long" { sid.push(0x00); }
     let ee = ctx.ee_cert(kind, g("ee"), g("cover"), c["fam"].as_str().unwrap_or("v4"), c["pol"].as_str().unwrap_or("refuse"));
-    let bytes = signed_data(&SignedDataParts { content_type: ct_oid, content, attrs, certs: vec![ee], crls: vec![], sid, signature });
+    let bytes = signed_data(&SignedDataParts { content_type: ct_oid, content, attrs, certs: vec![ee], crls: vec![], sid, signature, algform: c["alg"].as_str().unwrap_or("aa").to_string() });
     (bytes, g("crl") == "revoked")
 }
 
@@ -426,7 +426,7 @@ pub fn drive(args: &[String]) {
                 let mut attrs = vec![ct, md, st];
                 attrs.sort();
                 let signature = ctx.pki.signer.sign(&ctx.pki.key("e0"), rpki::crypto::RpkiSignatureAlgorithm::default(), &attrs_to_sign(&attrs)).unwrap().value().to_vec();
-                let bytes = signed_data(&SignedDataParts { content_type: der::oid(OID_CT_ROA), content, attrs, certs: vec![ee_der], crls: vec![], sid: ctx.pki.pubkey("e0").key_identifier().as_slice().to_vec(), signature });
+                let bytes = signed_data(&SignedDataParts { content_type: der::oid(OID_CT_ROA), content, attrs, certs: vec![ee_der], crls: vec![], sid: ctx.pki.pubkey("e0").key_identifier().as_slice().to_vec(), signature, algform: ["aa", "nn", "na", "an"][(seed as usize + i as usize) % 4].to_string() });
                 let (ok, why) = verdict(&ctx, "roa", bytes, false);
                 if !ok && !why.contains("not covered") && !why.contains("covered by") {
                     return Err(format!("unexpected rejection: {why}"));
@@ -459,7 +459,7 @@ pub fn drive(args: &[String]) {
                 let mut attrs = vec![ct, md, st];
                 attrs.sort();
                 let signature = ctx.pki.signer.sign(&ctx.pki.key("e0"), rpki::crypto::RpkiSignatureAlgorithm::default(), &attrs_to_sign(&attrs)).unwrap().value().to_vec();
-                let bytes = signed_data(&SignedDataParts { content_type: der::oid(OID_CT_ASPA), content, attrs, certs: vec![ee_der], crls: vec![], sid: ctx.pki.pubkey("e0").key_identifier().as_slice().to_vec(), signature });
+                let bytes = signed_data(&SignedDataParts { content_type: der::oid(OID_CT_ASPA), content, attrs, certs: vec![ee_der], crls: vec![], sid: ctx.pki.pubkey("e0").key_identifier().as_slice().to_vec(), signature, algform: ["aa", "nn", "na", "an"][(seed as usize + i as usize) % 4].to_string() });
                 let (ok, why) = verdict(&ctx, "aspa", bytes, false);
                 if !ok && !why.contains("customer AS not covered") {
                     return Err(format!("unexpected rejection: {why}"));
